@@ -69,6 +69,15 @@ def step (_ : Unit) (op impl : String) : Unit × DrvOut :=
   let out (m : String) : Unit × DrvOut := ((), { model := m, spec := verdict impl })
   match words op with
   | ["reset"] => ((), { model := "ok" })
+  | ["dump", cl, body] =>
+    let body? : Option Bytes :=
+      if body.startsWith "z" then ((body.drop 1).toString.toNat?).map fun n => List.replicate n (97 : UInt8)
+      else Hex.decode body
+    match cl.toInt?, body? with
+    | some cl, some body =>
+      out (showR (dumpCapped cl body) fun o =>
+        if o.length > 64 then s!"len {o.length} tail {hx (o.drop (o.length - 20))}" else s!"body {hx o}")
+    | _, _ => ((), { model := "bad-op" })
   | "http" :: _ =>
     -- raw request over a real loopback connection through the real httpp.Server chain: the answer is
     -- decided by net/http + gin (not modelled); the property is that the process survives
